@@ -493,6 +493,29 @@ static void space_extreme(void)
 		vf_outcome(vf_mix(o.members, o.body_len[0]));
 		vf_nontrivial(vf_mix(k * 16 + mode, kind));
 	}
+	/* many members whose decoder cannot start (MacLHA, >= 128 bytes declared, no data): nothing may pile up */
+	for (k = 0; k < 3; ++k)
+	for (mode = 1; mode < 3; ++mode)
+	for (kind = 0; kind < K_COUNT; ++kind) {
+		static const char *ms[3] = { "-lhx-", "-lh7-", "-lh5-" };
+		size_t n = 0;
+		int j;
+		obs_t o;
+		if (!vf_case("24 MacLHA %s members declaring 4096 bytes with no data, walk %d, %s", ms[k], mode, KIND_NAME[kind])) continue;
+		for (j = 0; j < 24; ++j) {
+			ref_hdr f;
+			memset(&f, 0, sizeof f);
+			f.level = 2; memcpy(f.method, ms[k], 5); f.os = 'm'; f.name = f.area = (const uint8_t *) "";
+			f.ext[0].type = 1; f.ext[0].data = (const uint8_t *) "macmember"; f.ext[0].len = 9; f.next = 1;
+			f.packed = 0; f.size = 4096; f.time_raw = 1262304000u;
+			n += ref_hdr_encode(&f, buf + n, sizeof buf - n);
+		}
+		walk(kind, buf, n, mode, 4096, &o);
+		if (o.hang) vf_viol("c13-zero-progress-loop", "%s: MacLHA members without data", KIND_NAME[kind]);
+		if (o.peak > (8u << 20) + 2 * n) vf_viol("c13-heap", "%s: peak live heap %zu for %zu input bytes (24 %s members whose decoders cannot start)", KIND_NAME[kind], o.peak, n, ms[k]);
+		vf_outcome(vf_mix(o.members, o.peak / 65536));
+		vf_nontrivial(vf_mix(k * 16 + mode, 7000 + kind));
+	}
 	/* lead-in of 256 KiB +- 30 without a header */
 	for (k = 0; k <= 60; k += 5)
 	for (kind = 0; kind < K_COUNT; ++kind) {
